@@ -237,4 +237,52 @@ Proof.
     + cbn [session_run]. rewrite Hr. cbn [bind fst snd]. rewrite session_run_app, Hrun2. cbn [bind fst snd]. rewrite Hrun3. reflexivity.
     + rewrite !data_entries_app, Hdata, (data_entries_meta out2 Hmeta). reflexivity.
 Qed.
+
+(* the ClientHello record: a whole ClientHello message (RFC 5246 7.4.1.2: version, random, then anything) as the body of one record *)
+Lemma ch_record s r hv random rest : ts_server_cc s = false -> ts_client_cc s = false -> hsst false s = (0, []) ->
+  r_type r = 22 -> r_body r = hm (1, hv ++ random ++ rest) -> wfm (1, hv ++ random ++ rest) -> len hv = 2 -> len random = 32 ->
+  exists s', handle_tls_record C tbl parts keylog s r false = Ok (s', [meta_entry r false]) /\
+             ts_client_hello_seen s' = true /\ ts_server_cc s' = false /\ ts_client_cc s' = false /\ ts_client_random s' = random /\
+             hsst false s' = (0, []) /\ hsst true s' = hsst true s.
+Proof.
+  intros H1 H2 Hst Hty Hb Hw Lhv Lr. unfold handle_tls_record. rewrite Hty. change (22 =? 22) with true. cbv iota.
+  assert (Hb2 : r_body r = 1 :: to_be_total (len (hv ++ random ++ rest)) 3 ++ hv ++ random ++ rest) by (rewrite Hb; reflexivity).
+  rewrite (plain_record_eq C tbl parts keylog s r false 1 _) by (try (rewrite H1, H2; reflexivity); exact Hb2). cbv zeta. rewrite Hst.
+  change ((0 <? fst (0, @nil Z)) || (0 <? len (snd (0, @nil Z)))) with false. change (1 =? 1) with true. cbv iota. cbn [bind fst snd app].
+  assert (Hstep : hs_step (0, []) (r_body r) = (0, [])).
+  { destruct (whole_flight [(1, hv ++ random ++ rest)] [r_body r]) as [_ W]; [constructor; [exact Hw|constructor]|rewrite Hb; cbn [concat stream map]; reflexivity|]. exact W. }
+  rewrite Hstep. cbn [fst snd].
+  eexists. split; [reflexivity|]. unfold handle_tls_client_hello. cbn [upd ts_client_hello_seen ts_server_cc ts_client_cc ts_client_random]. repeat split.
+  rewrite Hb2. pose proof (len_to_be_total (len (hv ++ random ++ rest)) 3 ltac:(lia)) as L3.
+  replace (1 :: to_be_total (len (hv ++ random ++ rest)) 3 ++ hv ++ random ++ rest) with (([1] ++ to_be_total (len (hv ++ random ++ rest)) 3 ++ hv) ++ random ++ rest)
+    by (rewrite <- !app_assoc; reflexivity).
+  set (T := to_be_total (len (hv ++ random ++ rest)) 3) in *. apply (C12P.slice_at _ random rest 6 32); [rewrite !len_app; change (len [1]) with 1; rewrite L3, Lhv; reflexivity|exact Lr].
+Qed.
+
+(* ... and the connection from the ClientHello on *)
+Theorem tls12_aead_connection_ch s0 rc hvc randomc restc r hv random sid suite es more cs a x xs k v ms_s Fc mid version evs stc sts stc' sts' rs :
+  ts_server_cc s0 = false -> ts_client_cc s0 = false -> hsst true s0 = (0, []) -> hsst false s0 = (0, []) ->
+  r_type rc = 22 -> r_body rc = hm (1, hvc ++ randomc ++ restc) -> wfm (1, hvc ++ randomc ++ restc) -> len hvc = 2 -> len randomc = 32 ->
+  r_type r = 22 -> r_body r = sh_message hv random sid suite 0 es ++ more ->
+  len hv = 2 -> len random = 32 -> len sid < 256 -> len suite = 2 ->
+  match es with None => True | Some l => Forall ext_ok l /\ len (enc_exts l) < 65536 end -> wfm (2, sh_body hv random sid suite es) ->
+  version_choice (from_be (r_version r)) (from_be hv) es = Some v -> v <> TLS13 ->
+  split_cipher_suite tbl parts (from_be suite) = Some cs -> algo_of cs = Some a -> a = AESGCM \/ a = AESCCM -> 0 <= s_tag cs ->
+  filter (fun q => bytes_eqb (s_random q) randomc) keylog = x :: xs -> derive_session_keys C v cs (x :: xs) randomc random = Ok (K12 k) ->
+  Forall wfm ms_s -> Forall wfm Fc -> Forall (fun m => fst m <> 1 /\ fst m <> 2) ms_s -> Forall (fun m => fst m <> 1 /\ fst m <> 2) Fc ->
+  Forall (fun y => r_type (snd y) = 22 /\ r_body (snd y) <> []) mid -> more ++ bodies true mid = stream ms_s -> bodies false mid = stream Fc ->
+  len version = 2 -> ss_seq stc = 0 -> ss_seq sts = 0 -> Z.of_nat (length evs) <= 2 ^ 64 -> Forall ev12_ok evs -> ordered false false evs ->
+  play12 C a (client_key k) (client_iv k) (server_key k) (server_iv k) version (s_tag cs) stc sts evs = Ok (stc', sts', rs) ->
+  exists s' out, session_run C tbl parts keylog s0 ((false, rc) :: (true, r) :: mid ++ rs) = Ok (s', out) /\ data_entries out = flat_map app_of evs.
+Proof.
+  intros G1 G2 G3 G4 Tc Bc Wc Lhc Lrc. intros Hty Hb Lhv Lr Lsid Lsu Hes Hwsh Hv Hv13 Hcs Ha Haa Htag Hf Hk Hwms Hwfc Hts Htc Hmid Hbs Hbc Lver S1 S2 Hn Hev Hord Hplay.
+  destruct (ch_record s0 rc hvc randomc restc G1 G2 G4 Tc Bc Wc Lhc Lrc) as (s & Hrc & Q1 & Q2 & Q3 & Q4 & Q5 & Q6).
+  assert (Hf' : find_session_secrets keylog s = x :: xs) by (unfold find_session_secrets; rewrite Q4; exact Hf).
+  rewrite <- Q4 in Hk. rewrite G3 in Q6.
+  destruct (tls12_aead_connection s r hv random sid suite es more cs a x xs k v ms_s Fc mid version evs stc sts stc' sts' rs
+              Q1 Q2 Q3 Q6 Q5 Hty Hb Lhv Lr Lsid Lsu Hes Hwsh Hv Hv13 Hcs Ha Haa Htag Hf' Hk Hwms Hwfc Hts Htc Hmid Hbs Hbc Lver S1 S2 Hn Hev Hord Hplay) as (s' & out & Hrun & Hd).
+  exists s', ([meta_entry rc false] ++ out). split.
+  - cbn [session_run]. rewrite Hrc. cbn [bind fst snd]. cbn [session_run] in Hrun. rewrite Hrun. reflexivity.
+  - rewrite data_entries_app, Hd. reflexivity.
+Qed.
 End Conn.
